@@ -49,6 +49,37 @@ def main():
         return (AntiSymmetricTensor(f"{tn.gs_density}{order}", (u,), (l,), 1)
                 * AntiSymmetricTensor(tn.operator, (u,), (l,), 1))
 
+    from adcgen import Properties
+    prop = Properties(isr)
+    re_gs = GroundState(Operators("re"))
+    MENU.update({
+        # the same method with one argument changed (cache keys)
+        "m1phph_nosub": lambda: (m.isr_matrix_block(1, "ph,ph", "ia,jb", False),
+                                 "iajb"),
+        "m1phph_kcld": lambda: (m.isr_matrix_block(1, "ph,ph", "kc,ld"),
+                                "kcld"),
+        "m0phph_nosub": lambda: (m.isr_matrix_block(0, "ph,ph", "ia,jb", False),
+                                 "iajb"),
+        "m0phph": lambda: (m.isr_matrix_block(0, "ph,ph", "ia,jb"), "iajb"),
+        "ovlisr2": lambda: (isr.overlap_isr(2, "ph,ph", "ia,jb"), "iajb"),
+        "tm1ph": lambda: (prop.trans_moment_space(1, "ph"), ""),
+        "tm1ph_nosub": lambda: (prop.trans_moment_space(1, "ph",
+                                                        subtract_gs=False), ""),
+        "ex1phph": lambda: (prop.expec_block_contribution(1, "ph,ph"), ""),
+        "ex0phph": lambda: (prop.expec_block_contribution(0, "ph,ph"), ""),
+        "ex0phph_nosub": lambda: (prop.expec_block_contribution(
+            0, "ph,ph", 1, False), ""),
+        "ex0phph_2p": lambda: (prop.expec_block_contribution(0, "ph,ph", 2),
+                               ""),
+        "t2_2_klcd": lambda: (Intermediates().available["t2_2"].expand_itmd(
+            "klcd", return_sympy=True), "klcd"),
+        "t2_2_once": lambda: (Intermediates().available["t2_2"].expand_itmd(
+            "ijab", return_sympy=True, fully_expand=False), "ijab"),
+        "energy2_re": lambda: (re_gs.energy(2), ""),
+        "mvp1": lambda: (m.mvp_block_order(1, "ph", "ph,ph", "ia"), "ia"),
+        "mvp1_nosub": lambda: (m.mvp_block_order(1, "ph", "ph,ph", "ia",
+                                                 False), "ia"),
+    })
     MENU.update({
         "p0_2_exp": lambda: (Expr(density_expr(2), real=True)
                              .expand_intermediates().sympy, ""),
